@@ -34,7 +34,9 @@ CHECKS = {
               "walk; the checker (extracted) runs on every diagram the crate produces along random histories of all constructing "
               "operations, after a checked conversion of the kind() walk into cut form that fails unless the edges are simple ranges "
               "forming a sorted contiguous cover; the hand walk is compared with evaluate() at the cut values. Preservation of wf by "
-              "each model operation (reach_wf) is proved for the operations listed in evidence; the rest is monitored."
+              "every operation is proved for whole programs: after any sequence of parse / and / or / negate / simplify_extras / simplify / complexify steps, "
+              "executed by the model of the crate's own recursions on ids with the memo cache, every register holds a diagram the checker accepts, and the "
+              "walk over kind() rebuilds exactly that diagram (C20_every_reachable_marker_wf, C20_every_reachable_walk_wf)."
               " On ids: the view of a valid id shows one node whose children are valid ids of smaller rank, the recursive walk rebuilds exactly the diagram of the id, and choosing edges by hand along the views is evaluate; the derived order of the Variable enum (regenerated from the source) is the model's variable order."),
         design_ref='DESIGN.md section 7 / C20',
         technique='Coq proof of checker correctness + verified runtime monitor on every produced diagram + differential evaluation'),
@@ -116,8 +118,9 @@ CHECKS = {
               "diagram, and two ids are equal exactly when they show the same diagram - for every reachable store, i.e. whatever was interned "
               "before; every constructor yields well-formed diagrams; a program of marker operations observes the same diagrams and the same "
               "pattern of equal markers after any two histories (hist_indep). Programs use the L1 meaning of each operation (unfold / operate / intern); for and/or "
-              "this abstraction is proved sound against the model of the memoised recursion on ids (C14_and_refines, C14_cache_irrelevant); restrict / simplify / "
-              "complexify on ids are not modelled at L2 (tied by the step-wise correspondence). Tie: raw ids through the "
+              "this abstraction is proved sound against the model of the memoised recursion on ids (C14_and_refines, C14_cache_irrelevant); the recursions of restrict / "
+              "simplify / complexify on ids are modelled and proved against their L1 meaning too (C11_simplify_extras_on_ids, C12_simplify_on_ids, "
+              "C12_complexify_on_ids). Tie: raw ids through the "
               "cfg(pep508_rs_verif) hook (id equality <=> equal dumps, id^1 <=> negation, complement bit = model prediction, no new nodes on repetition); "
               "fresh-process runs of the same program alone / after warm-ups / after the same versions under other spellings / permuted, comparing "
               "raw dumps, Display, DNF, evaluate, ==/cmp/hash."
